@@ -86,6 +86,12 @@ fn int_of(d: i8) -> i64 {
     match d {
         -128..=-121 => -(1i64 << 53) + (d as i64 + 128),
         121..=127 => (1i64 << 53) - (127 - d as i64),
+        // dense clusters of integers that f64 cannot tell apart (nanosecond epochs, the
+        // extremes of the type): comparing them through a float is unsound
+        90..=104 => 1_700_000_000_000_000_000 + (d as i64 - 97),
+        105..=120 => i64::MAX - (120 - d as i64),
+        -104..=-90 => -1_700_000_000_000_000_000 + (d as i64 + 97),
+        -120..=-105 => i64::MIN + (d as i64 + 120),
         _ => d as i64,
     }
 }
@@ -93,6 +99,10 @@ fn float_of(d: i8) -> f64 {
     match d {
         -128..=-125 => -1e300 * ((d as f64 + 129.0) / 4.0),
         125..=127 => 1e300 * ((128.0 - d as f64) / 4.0),
+        // values without a short exact decimal form: a statistic that goes through a
+        // best-effort decimal parser on its way into / out of the catalog moves by an ulp
+        13..=60 => d as f64 / 3.0,
+        -60..=-13 => d as f64 * 0.1 + 1e-9,
         _ => d as f64 / 4.0,
     }
 }
@@ -535,6 +545,14 @@ pub fn exec_box(case: &Case) -> Outcome {
     if case.cols.iter().any(|c| !matches!(c.stats, StatsMode::Exact)) {
         out.class("missing-or-mistyped-stats");
     }
+    let mut used = [false; NCOLS];
+    cols_used(&case.pred, &mut used);
+    if case.cols.iter().enumerate().any(|(i, c)| used[i] && c.kind == Kind::Int && col_values(c).iter().any(|v| matches!(v, Val::I(x) if x.unsigned_abs() > 1 << 53))) {
+        out.class("int-column-beyond-2^53");
+        if !verdict {
+            out.class("int-column-beyond-2^53:pruned");
+        }
+    }
     if !verdict {
         if let Some(w) = box_satisfiable(case) {
             // signature: the kind of leaf responsible when the tree is a single leaf, else "tree"
@@ -621,6 +639,7 @@ fn lit() -> impl Strategy<Value = Lit> {
     prop_oneof![
         12 => (-12i8..=12).prop_map(Lit::Own),
         2 => any::<i8>().prop_map(Lit::Own),
+        2 => clustered(-6..=6).prop_map(Lit::Own),
         3 => (-12i8..=12).prop_map(Lit::Cross),
         1 => Just(Lit::Null),
         1 => any::<bool>().prop_map(Lit::Bool),
@@ -652,10 +671,21 @@ pub fn pred_tree() -> impl Strategy<Value = P> {
     })
 }
 
+/// Centres of the value clusters at large magnitudes (see `int_of` / `float_of`).
+const CLUSTERS: [i8; 8] = [97, -97, 113, -113, 124, -124, 126, -126];
+
+fn clustered(d: std::ops::RangeInclusive<i8>) -> impl Strategy<Value = i8> {
+    (0usize..CLUSTERS.len(), d).prop_map(|(c, o)| CLUSTERS[c].saturating_add(o))
+}
+
 fn col() -> impl Strategy<Value = Col> {
+    let small = prop::collection::vec(prop_oneof![8 => (-12i8..=12).prop_map(Some), 1 => any::<i8>().prop_map(Some), 1 => Just(None)], 1..8);
+    // all rows from one cluster of large magnitude: neighbouring values that differ in the last digit
+    let big = (0usize..CLUSTERS.len(), prop::collection::vec(prop_oneof![9 => (-6i8..=6).prop_map(Some), 1 => Just(None)], 1..6))
+        .prop_map(|(c, os)| os.into_iter().map(|o| o.map(|o| CLUSTERS[c].saturating_add(o))).collect::<Vec<_>>());
     (
         prop_oneof![Just(Kind::Int), Just(Kind::Float), Just(Kind::Str)],
-        prop::collection::vec(prop_oneof![8 => (-12i8..=12).prop_map(Some), 1 => any::<i8>().prop_map(Some), 1 => Just(None)], 1..8),
+        prop_oneof![6 => small, 1 => big],
         prop_oneof![8 => Just(StatsMode::Exact), 1 => Just(StatsMode::Missing), 1 => any::<u8>().prop_map(StatsMode::Mistyped)],
     )
         .prop_map(|(kind, rows, stats)| Col { kind, rows, stats })
@@ -704,7 +734,7 @@ pub fn def() -> PropDef {
         assumptions: &[
             "SQL three-valued logic as implemented in the harness' reference evaluator",
             "candidate set {min,max,literal,successor/predecessor of literal} is complete for comparison trees (truth is piecewise constant between literals)",
-            "ints mixed with floats stay within +-2^53",
+            "a float literal compared with an integer column (and vice versa) stays within +-2^53; integer columns and integer literals themselves range over all of i64, including clusters of neighbours beyond 2^53",
         ],
         subs: || {
             vec![
